@@ -2,7 +2,7 @@
 From Coq Require Import ZArith.
 From Coq Require Extraction.
 From Coq Require Import ExtrOcamlBasic.
-From C03 Require Import Model ModelF.
+From C03 Require Import Model ModelF ModelDK.
 Extraction Language OCaml.
 Cd "ocaml".
 Extraction "model.ml" mulZ addZ addinZ subZ negZ axpyZ axmyZ maxpyZ maxpyinZ reduceZ invZ divZ divinZ isUnitZ gcdextZ mOneZ
@@ -11,6 +11,7 @@ Extraction "model.ml" mulZ addZ addinZ subZ negZ axpyZ axmyZ maxpyZ maxpyinZ red
   bf_reduce bf_mul bf_add bf_sub bf_neg bf_axpy bf_axpyin bf_axmy bf_maxpy bf_inv bf_div bf_isUnit
   bi_mul bi_add bi_sub bi_neg bi_axpy bi_axmy bi_maxpy bi_reduce bi_inv bi_div bi_isUnit
   ex_mul ex_reduce ex_add ex_sub ex_neg ex_axpy ex_axmy ex_maxpy ex_inv ex_div ex_divin ex_isUnit
+  dk_mul dk_reduce fb_mul fb_reduce xb_mul xb_reduce xb_axpy xb_axmy xb_maxpy xb_div bf_negn bi_negn bi_maxpyn
   ru_mul ru_sub ru_subin ru_add ru_neg ru_axpy ru_maxpy ru_axmy ru_maxpyin ru_reduce ru_isUnit
   zz_mul zz_sub zz_add zz_neg zz_axpy zz_axmy zz_maxpy zz_axmyin zz_reduce.
 Cd "..".
